@@ -21,7 +21,11 @@ macro_rules! n16 {
 pub const NAMES: [&str; 16] = ["Q", "z", "LvA", "LvAB", "_lvx", "lv.1", "Lv_mid.dle.x", "LvLong_name.with.dots", "élv1", "LvZ9", "Lv\u{663}x", "Lv\u{b2}", "\u{2167}Lv", "\u{663}", concat!("Lv_long_", n16!(n16!("n"))), concat!("Lv_LONG_", n16!(n16!("NnNn")))];
 const VALUES: [&str; 16] = ["val", "", "{", "}", "ENV{LvAB}", "LvAB}", "sub/dir", "ü", "x y", "ENV{LvA}{", "/abs/x", "/", "AB", "A", "B}", "Z9}"];
 const LITERALS: [&str; 14] = ["a", "log", "é", " ", "-", ".", "_", "$", "{", "}", "$ENV", "$ENV{", "ENV{", "$$"];
-const MALFORMED: [&str; 10] = ["$ENV{}", "$ENV{.a}", "$ENV{-a}", "$ENV{$ENV{LvA}}", "$ENV{Lv-A}", "$ENV{Lv A}", "$ENV{Lv$A}", "$ENV{LvA", "$ENV{LvA/x}", "$ENV{ }"];
+// (the last four: characters outside ASCII that are neither letters nor digits - en dash, euro sign, no-break space, an emoji)
+const MALFORMED: [&str; 14] = [
+    "$ENV{}", "$ENV{.a}", "$ENV{-a}", "$ENV{$ENV{LvA}}", "$ENV{Lv-A}", "$ENV{Lv A}", "$ENV{Lv$A}", "$ENV{LvA", "$ENV{LvA/x}", "$ENV{ }",
+    "$ENV{Lv\u{2013}A}", "$ENV{Lv\u{20ac}}", "$ENV{Lv\u{a0}A}", "$ENV{Lv\u{1f600}}",
+];
 
 #[derive(Serialize, Deserialize, Debug, Clone)]
 pub struct Case {
@@ -61,6 +65,9 @@ fn install(vars: &[Option<String>]) {
     // are malformed and stay as they are, whether or not such variables exist
     std::env::set_var(".a", "dot-a-value");
     std::env::set_var("Lv-A", "dash-value");
+    for n in ["Lv\u{2013}A", "Lv\u{20ac}", "Lv\u{a0}A", "Lv\u{1f600}"] {
+        std::env::set_var(n, "value-of-a-name-no-reference-can-have");
+    }
     for (i, n) in NAMES.iter().enumerate() {
         match vars.get(i).cloned().flatten() {
             Some(v) => std::env::set_var(n, v),
@@ -197,6 +204,23 @@ pub fn check_e2e(tmp: &Path, case: &Case, obs: &mut Obs) -> CaseResult {
             std::fs::create_dir_all(old.parent().unwrap()).unwrap();
             std::fs::write(&old, b"content of an earlier run\n").unwrap();
         }
+        // a file whose NAME is the path as written, references and all - left by an earlier run in which the variables
+        // were not set - is a bystander: the appender opens the expanded location all the same
+        const STALE: &[u8] = b"left by a run in which the variable was not set\n";
+        let stale: Option<String> = if matches!(which, 0 | 1 | 5 | 6) && case.path.len() % 2 == 0 && fs_safe(&case.path) {
+            let (l, e) = (collapse(&case.path), collapse(&want_rel));
+            if l != e && !e.starts_with(&format!("{}/", l)) && !l.starts_with(&format!("{}/", e)) && !l.is_empty() {
+                let f = std::path::PathBuf::from(format!("{}/{}", root.display(), l));
+                match f.parent().map(std::fs::create_dir_all).unwrap_or(Ok(())).and_then(|_| std::fs::write(&f, STALE)) {
+                    Ok(()) => Some(l),
+                    Err(_) => None,
+                }
+            } else {
+                None
+            }
+        } else {
+            None
+        };
         let r = catch(|| -> Result<(), String> {
             match which {
                 0 => {
@@ -338,9 +362,22 @@ pub fn check_e2e(tmp: &Path, case: &Case, obs: &mut Obs) -> CaseResult {
             );
             continue;
         }
+        let want_file = collapse(&want_file);
+        if let Some(l) = &stale {
+            obs.sub_evals += 1;
+            obs.class("stale-file-named-like-the-unexpanded-path");
+            let mut want: std::collections::BTreeMap<String, Vec<u8>> = Default::default();
+            want.insert(l.clone(), STALE.to_vec());
+            want.insert(want_file.clone(), vec![]);
+            ensure!(
+                s.files == want,
+                if !s.files.contains_key(&want_file) { "C19:not-expanded" } else { "C19:wrong-location" },
+                "{} given {:?} next to a stale file of that literal name: the directory holds {:?}; expected the untouched stale file and an empty file at the expanded location {:?}", what, case.path, s.files.iter().map(|(k, v)| (k.clone(), v.len())).collect::<Vec<_>>(), want_file
+            );
+            continue;
+        }
         let files: Vec<&String> = s.files.keys().collect();
         obs.sub_evals += 1;
-        let want_file = collapse(&want_file);
         ensure!(
             files == vec![&want_file],
             if files.iter().any(|f| f.len() != want_file.len()) { "C19:rescan" } else { "C19:wrong-location" },
